@@ -120,6 +120,46 @@ def shapes(ctx):
                 ok = all(names[2 * j + 1].endswith("_old") for j in range(nun))
                 ctx.decided("%s/return#%d/new-old-order" % (fn, k), "ensures", ok,
                             witness="result list is not (new, old) pairs: %s" % names)
+    # the "old" member of every (new, old) pair is a SNAPSHOT of the unknown taken before the Newton update: its
+    # defining expression must create a fresh array (A4 alias rules: `.copy()`, or a read through an index ARRAY;
+    # a basic slice `pit[:, COL]` is a view that would follow the update and make the measured step 0), it must be the
+    # same location as the "new" member, and the assignment must precede every in-place update of that location
+    for fn in ("solve_hydraulics", "solve_temperature"):
+        f = S.get_function(PF + ":" + fn)
+        ctx.use_function(f)
+        body = f.node
+        assigns = {}
+        for st in ast.walk(body):
+            if isinstance(st, ast.Assign) and len(st.targets) == 1 and isinstance(st.targets[0], ast.Name):
+                assigns.setdefault(st.targets[0].id, []).append(st)
+        updates = [st for st in ast.walk(body) if isinstance(st, ast.AugAssign) and isinstance(st.target, ast.Subscript)]
+        for k, ret in enumerate([n for n in ast.walk(body) if isinstance(n, ast.Return) and n.value is not None
+                                 and isinstance(n.value, ast.Tuple) and isinstance(n.value.elts[0], ast.List)]):
+            elts = ret.value.elts[0].elts
+            for j in range(0, len(elts) - 1, 2):
+                new_e, old_e = elts[j], elts[j + 1]
+                label = "%s/return#%d/pair%d" % (fn, k, j // 2)
+                if not isinstance(old_e, ast.Name) or len(assigns.get(old_e.id, [])) != 1:
+                    ctx.decided(label + "/old-is-a-snapshot", "ensures", False,
+                                witness="old value %s is not a singly assigned local" % ast.unparse(old_e))
+                    continue
+                st = assigns[old_e.id][0]
+                rhs = st.value
+                is_copy = isinstance(rhs, ast.Call) and isinstance(rhs.func, ast.Attribute) and rhs.func.attr == "copy" \
+                    and not rhs.args
+                src = rhs.func.value if is_copy else rhs
+                fancy = isinstance(src, ast.Subscript) and isinstance(src.slice, ast.Tuple) and \
+                    not isinstance(src.slice.elts[0], ast.Slice)
+                ctx.decided(label + "/old-is-a-snapshot", "ensures", is_copy or fancy,
+                            witness="%s = %s is a view of the array that is updated in place afterwards (no copy): the measured "
+                                    "change new - old is identically 0" % (old_e.id, ast.unparse(rhs)))
+                ctx.decided(label + "/old-and-new-are-the-same-location", "ensures", ast.unparse(src) == ast.unparse(new_e),
+                            witness="new: %s, old taken from: %s" % (ast.unparse(new_e), ast.unparse(src)))
+                later = [u for u in updates if ast.unparse(u.target) == ast.unparse(new_e)]
+                ctx.decided(label + "/snapshot-precedes-the-update", "order",
+                            all(st.lineno < u.lineno for u in later) and (len(later) >= 1),
+                            witness="snapshot at line %d, in-place updates of %s at lines %s" %
+                                    (st.lineno, ast.unparse(new_e), [u.lineno for u in later]))
     # solve_bidirectional: evaluated with the two shape contracts applied
     log = []
 
